@@ -69,7 +69,9 @@ def inline_constants(trees, report):
                 bound.setdefault(st.target.id, []).append(st)
         from .refnorm import module_globals
 
-        stable = set()
+        import builtins as _b
+
+        stable = {n for n in dir(_b) if not n.startswith("_")} - module_globals(tree)
         for st in tree.body:
             if isinstance(st, (ast.FunctionDef, ast.AsyncFunctionDef, ast.ClassDef)):
                 stable.add(st.name)
@@ -177,7 +179,16 @@ def _pure(e):
 
 
 def _mutable_display(e):
-    return any(isinstance(n, (ast.List, ast.Dict, ast.Set, ast.ListComp, ast.DictComp, ast.SetComp)) for n in ast.walk(e))
+    """evaluating e creates a new mutable container that is (part of) its value"""
+    if isinstance(e, (ast.List, ast.Dict, ast.Set, ast.ListComp, ast.DictComp, ast.SetComp)):
+        return True
+    if isinstance(e, ast.Tuple):
+        return any(_mutable_display(x) for x in e.elts)
+    if isinstance(e, ast.IfExp):
+        return _mutable_display(e.body) or _mutable_display(e.orelse)
+    if isinstance(e, ast.BoolOp):
+        return any(_mutable_display(x) for x in e.values)
+    return False
 
 
 def _order(fnode):
